@@ -14,62 +14,6 @@ The compute unit's side uses only the ID-independent part of C14's invariant (`L
 namespace C15.Cu
 open C14.Flush
 
-/-- what is still to come of the command processor's round (0: no round open; at most 13) -/
-def fullMu (σ : Comp) : Nat :=
-  match σ.cu.cp with
-  | .idle => 0
-  | .flushSent => 11 + cuStage σ.cu
-  | .acked => 3 + (if σ.robPh = 0 then 7 else roundMu σ)
-  | .restartSent => 1 + cuStage σ.cu
-
-/-- the event of the whole round that is due -/
-def helpfulF (c : Cfg) (σ : Comp) : CEv → Bool
-  | .cu .tick =>
-    (σ.cu.cp == .flushSent || σ.cu.cp == .restartSent) &&
-    (!σ.cu.cpIn.isEmpty || (σ.cu.ackPending && decide (σ.cu.cpOut.length < c.cu.capCP)))
-  | .cu (.take .c n) =>
-    (σ.cu.cp == .flushSent || σ.cu.cp == .restartSent) && decide (0 < n) && !σ.cu.cpOut.isEmpty
-  | .rob (.ctl m) =>
-    σ.cu.cp == .acked &&
-    ((decide (σ.robPh = 0) && m.discard && !m.restart && decide (σ.sys.rob.ctlIn.length < c.rob.ctlInCap)) ||
-     helpfulR c σ (.rob (.ctl m)))
-  | e => σ.cu.cp == .acked && helpfulR c σ e
-
-def helpfulCountF (c : Cfg) : Comp → List CEv → Nat
-  | _, [] => 0
-  | σ, e :: es => (if helpfulF c σ e then 1 else 0) + helpfulCountF c (cstep c σ e) es
-
-theorem roundMu_le_six (σ : Comp) : roundMu σ ≤ 6 := by
-  unfold roundMu; repeat' split
-  all_goals omega
-
-theorem roundMu_pos {σ : Comp} (h : σ.robPh ≠ 0) : 1 ≤ roundMu σ := by
-  unfold roundMu; repeat' split
-  all_goals first | omega | contradiction
-
-theorem roundMu_of_zero {σ : Comp} (h : σ.robPh = 0) : roundMu σ = 0 := by
-  simp [roundMu, h]
-
-/-- the compute unit's part of one composed event, classified -/
-theorem cstep_stage_cases (c : Cfg) (hcap : 0 < c.cu.capCP) (σ : Comp) (e : CEv) (hl : legalB c σ e = true)
-    (h : Lite σ.cu) :
-    let σ' := cstep c σ e
-    (σ'.cu.cp = σ.cu.cp ∧ cuStage σ'.cu ≤ cuStage σ.cu) ∨ σ.cu.cp = .idle ∨
-    (σ.cu.cp = .flushSent ∧ σ'.cu.cp = .acked) ∨
-    (σ.cu.cp = .acked ∧ σ'.cu.cp = .restartSent ∧ cuStage σ'.cu ≤ 2) ∨
-    (σ.cu.cp = .restartSent ∧ σ'.cu.cp = .idle) := by
-  intro σ'
-  have hcu := cstep_cu c σ e
-  rcases ho : cuOp c σ e with _ | o
-  · rw [ho] at hcu; simp only at hcu
-    left; show (cstep c σ e).cu.cp = _ ∧ cuStage (cstep c σ e).cu ≤ _
-    rw [hcu]; exact ⟨rfl, Nat.le_refl _⟩
-  · rw [ho] at hcu; simp only at hcu
-    show ((cstep c σ e).cu.cp = _ ∧ cuStage (cstep c σ e).cu ≤ _) ∨ _ ∨ (_ ∧ (cstep c σ e).cu.cp = _) ∨
-      (_ ∧ (cstep c σ e).cu.cp = _ ∧ cuStage (cstep c σ e).cu ≤ 2) ∨ (_ ∧ (cstep c σ e).cu.cp = _)
-    rw [hcu]
-    exact step_stage_cases c.cu hcap σ.cu o h (cuOp_legalL c σ e hl o ho)
-
 /-- **No legal event pushes the whole round back**: for every legal composed run state and every
     legal event, `fullMu` does not grow — except that the command processor may open a new round
     when none is open (`cp = idle`, measure 0). No `SentNames`. -/
@@ -240,39 +184,6 @@ theorem full_round_helpful_decreases (c : Cfg) (hcap : 0 < c.cu.capCP) (hout : 0
 example : helpfulCountF demoCfg (crun demoCfg (roundEvs.take 5)) ((roundEvs ++ [CEv.cu (.take .c 1)]).drop 5) = 12 := by
   decide
 
-theorem fold_fullMu (c : Cfg) (hcap : 0 < c.cu.capCP) (hout : 0 < c.rob.ctlOutCap) :
-    ∀ (es : List CEv) (σ : Comp), Proto σ → Lite σ.cu → legalRunB c σ es = true →
-    (∃ k, k ≤ es.length ∧ ((es.take k).foldl (cstep c) σ).cu.cp = .idle) ∨
-    fullMu (es.foldl (cstep c) σ) + helpfulCountF c σ es ≤ fullMu σ := by
-  intro es
-  induction es with
-  | nil => intro σ _ _ _; right; simp [helpfulCountF]
-  | cons e es ih =>
-    intro σ hp hL hl
-    simp only [legalRunB, Bool.and_eq_true] at hl
-    by_cases h0 : σ.cu.cp = .idle
-    · left; exact ⟨0, Nat.zero_le _, h0⟩
-    · have hp' := cstep_Proto c σ e hl.1 hp
-      have hL' := cstep_Lite c hcap σ e hl.1 hL
-      rcases ih (cstep c σ e) hp' hL' hl.2 with ⟨k, hk, hz⟩ | hle
-      · left; exact ⟨k + 1, by simp; omega, by simpa using hz⟩
-      · right
-        simp only [List.foldl_cons, helpfulCountF]
-        by_cases hh : helpfulF c σ e = true
-        · have := full_round_helpful_decreases c hcap hout σ e hl.1 hL hp hh
-          simp only [hh, if_true]; omega
-        · rcases full_round_never_increases c hcap σ e hl.1 hL with hle' | hz
-          · simp only [hh, Bool.false_eq_true, if_false]; omega
-          · exact absurd hz h0
-
-theorem fullMu_zero {σ : Comp} (h : fullMu σ = 0) : σ.cu.cp = .idle := by
-  unfold fullMu at h
-  split at h
-  · assumption
-  · omega
-  · omega
-  · omega
-
 /-- **The whole flush / restart round of the composition completes — bounded liveness over every
     legal schedule, no hypothesis on response IDs.** From any reachable state, along any legal
     continuation (issue is blocked while paused; everything else — ticks of both components,
@@ -293,7 +204,30 @@ theorem full_round_completes_within (c : Cfg) (hcap : 0 < c.cu.capCP) (hout : 0 
   have hL : Lite σ.cu := crun_Lite c hcap evs0 hl0
   have hrun : ∀ l : List CEv, crun c (evs0 ++ l) = l.foldl (cstep c) σ := by
     intro l; simp [σ, crun, List.foldl_append]
-  have key := fold_fullMu c hcap hout evs σ hp hL hl1
+  have fold : ∀ (es : List CEv) (σ : Comp), Proto σ → Lite σ.cu → legalRunB c σ es = true →
+      (∃ k, k ≤ es.length ∧ ((es.take k).foldl (cstep c) σ).cu.cp = .idle) ∨
+      fullMu (es.foldl (cstep c) σ) + helpfulCountF c σ es ≤ fullMu σ := by
+    intro es
+    induction es with
+    | nil => intro σ _ _ _; right; simp [helpfulCountF]
+    | cons e es ih =>
+      intro σ hp hL hl
+      simp only [legalRunB, Bool.and_eq_true] at hl
+      by_cases h0 : σ.cu.cp = .idle
+      · left; exact ⟨0, Nat.zero_le _, h0⟩
+      · have hp' := cstep_Proto c σ e hl.1 hp
+        have hL' := cstep_Lite c hcap σ e hl.1 hL
+        rcases ih (cstep c σ e) hp' hL' hl.2 with ⟨k, hk, hz⟩ | hle
+        · left; exact ⟨k + 1, by simp; omega, by simpa using hz⟩
+        · right
+          simp only [List.foldl_cons, helpfulCountF]
+          by_cases hh : helpfulF c σ e = true
+          · have := full_round_helpful_decreases c hcap hout σ e hl.1 hL hp hh
+            simp only [hh, if_true]; omega
+          · rcases full_round_never_increases c hcap σ e hl.1 hL with hle' | hz
+            · simp only [hh, Bool.false_eq_true, if_false]; omega
+            · exact absurd hz h0
+  have key := fold evs σ hp hL hl1
   constructor
   · rcases key with ⟨k, hk, hz⟩ | hle
     · left; exact ⟨k, hk, by rw [hrun]; exact hz⟩
@@ -348,5 +282,11 @@ theorem full_round_no_deadlock (c : Cfg) (hcap : 0 < c.cu.capCP) (hin : 0 < c.ro
         · exact hb
   · left; exact ⟨.cu .tick, by simp [helpfulF, q1, q2]⟩
   · left; exact ⟨.cu (.take .c 1), by simp [helpfulF, q1, q3]⟩
+
+/-- after the flush request and one tick of the compute unit: the flush is executed, the
+    acknowledgement is owed — the due event is the compute unit's next tick -/
+example : Lite (crun demoCfg (roundEvs.take 6)).cu ∧ (crun demoCfg (roundEvs.take 6)).cu.cp = .flushSent ∧
+    helpfulF demoCfg (crun demoCfg (roundEvs.take 6)) (.cu .tick) = true :=
+  ⟨crun_Lite _ (by decide) _ (by decide), by decide, by decide⟩
 
 end C15.Cu
